@@ -3,9 +3,10 @@
 Runs tools/try_seed.sh for a confirmed seeded change in /verif/seeded/<ID>/ and writes meta.json
 (which property it breaks, what it needs to manifest, what was run, whether the check caught it)."""
 import json, os, subprocess, sys, re
-ID = sys.argv[1]
+TAG = sys.argv[1]          # seeded/<TAG>/ ; a second change for one property is tagged e.g. C15b
+ID = TAG[:3]
 tier = sys.argv[3] if len(sys.argv) > 3 else "quick"
-d = f"/verif/seeded/{ID}"
+d = f"/verif/seeded/{TAG}"
 am = {}
 try:
     am = json.load(open(f"{d}/agent_meta.json"))
@@ -21,11 +22,11 @@ meta = {
     "needs": am.get("needs", ""),
     "demonstration": [f for f in os.listdir(d) if f.endswith("_test.go")],
     "confirmed_by": "tools/confirm_seed.sh (build ok, full suite passes with the change, demo fails with / passes without) – see confirm.log",
-    "check_run": f"tools/try_seed.sh {ID} seeded/{ID}/patch.diff {tier}",
+    "check_run": f"tools/try_seed.sh {ID} seeded/{TAG}/patch.diff {tier}",
     "caught": bool(viol),
     "violation_lines": len(viol),
     "caught_by": kinds[:12],
     "no_failing_input_only": bool(viol) and all("no-failing-input-found" in v for v in viol),
 }
 json.dump(meta, open(f"{d}/meta.json", "w"), indent=1)
-print(ID, "caught" if viol else "MISSED", kinds[:6])
+print(TAG, "caught" if viol else "MISSED", kinds[:6])
